@@ -30,7 +30,7 @@ func init() {
 	ev.Rule("the endpoint under test (client or server Authenticator, or a plain Stream doing multi-frame typed sends and reads, PutFile / GetFile, PutSecret / GetSecret, StartMessageRead / ReadMessageBytes) talks to an honest cedar peer through a wrapper that counts its Read and Write calls; " +
 		"a baseline run yields the number N of calls of each kind; then for EVERY k in [0,N) and each kind the k-th call blocks forever and, once the wrapper signals the stall, the context is cancelled (variant: a deadline that fires during the stall); " +
 		"further variants: cancelled before the start, cancelled after completion, context.Background(); shapes: no authentication, CLAIMTOBE, FS, TOKEN, SSL (harness certificate), resumed session, three refused handshakes (DENIED for encryption, no common method, SID_NOT_FOUND), plain message exchange; " +
-		"oracle: from the cancellation the call returns within 2 s (re-run twice before it counts) with a non-nil error (the context's own error for plain stream operations) and the connection has been closed; " +
+		"oracle: from the cancellation the call returns within 2 s (re-run twice before it counts) with a non-nil error (the context's own error for plain stream operations) and the connection has been closed (Close itself, also where the transport offers CloseRead/CloseWrite: half the stall points run over such a transport); " +
 		"cancel-before: immediate error without I/O; cancel-after and Background: same outcome as the baseline; non-trivial = k > 0; distinct by (shape, role, kind, k, variant)")
 	ev.Assume("the 2 s bound only separates 'returns' from 'never returns' (typical return is well under a millisecond)")
 }
@@ -46,6 +46,7 @@ type stallConn struct {
 	stalled    chan struct{}
 	released   chan struct{}
 	closeCalls int
+	halfCloses int
 	once       sync.Once
 	sonce      sync.Once
 	dribble    int // >0: every Read hands out at most this many bytes
@@ -92,7 +93,35 @@ func (s *stallConn) Close() error {
 	return s.BufConn.Close()
 }
 
+// halfConn is the same transport with separable halves, as a TCP or Unix socket has (CloseRead/CloseWrite):
+// shutting one half wakes a blocked call on it, but the connection is only CLOSED by Close.
+type halfConn struct {
+	*stallConn
+}
+
+func (h halfConn) CloseRead() error {
+	h.mu.Lock()
+	h.halfCloses++
+	h.mu.Unlock()
+	if h.kind == "read" {
+		h.once.Do(func() { close(h.released) })
+	}
+	return nil
+}
+
+func (h halfConn) CloseWrite() error {
+	h.mu.Lock()
+	h.halfCloses++
+	h.mu.Unlock()
+	if h.kind == "write" {
+		h.once.Do(func() { close(h.released) })
+	}
+	return nil
+}
+
 type Case struct {
+	// Half: the endpoint's transport has separable read and write halves (see halfConn)
+	Half    bool   `json:"half,omitempty"`
 	Shape   string `json:"shape"`
 	Role    string `json:"role"` // endpoint under test: client | server | sender | receiver
 	Kind    string `json:"kind"` // read | write | ""
@@ -272,7 +301,11 @@ func runCase(c Case) outcome {
 	done := make(chan struct{})
 	go func() {
 		defer close(done)
-		es := stream.NewStream(st)
+		var econn net.Conn = st
+		if c.Half {
+			econn = halfConn{st}
+		}
+		es := stream.NewStream(econn)
 		switch c.Role {
 		case "client":
 			neg, err := security.NewAuthenticator(ccfg, es).ClientHandshake(ctx)
@@ -540,11 +573,12 @@ func TestC19Stalls(t *testing.T) {
 			variants = append(variants, "cancel-cause", "deadline-cause")
 		}
 		for _, v := range variants {
+			// every other stall point runs over a transport with separable halves (a TCP-like socket)
 			for k := 0; k < base.reads; k++ {
-				jobs = append(jobs, job{Case{Shape: p.shape, Role: p.role, Kind: "read", K: k, Variant: v}, base})
+				jobs = append(jobs, job{Case{Shape: p.shape, Role: p.role, Kind: "read", K: k, Variant: v, Half: (k+len(v))%2 == 0}, base})
 			}
 			for k := 0; k < base.writes; k++ {
-				jobs = append(jobs, job{Case{Shape: p.shape, Role: p.role, Kind: "write", K: k, Variant: v}, base})
+				jobs = append(jobs, job{Case{Shape: p.shape, Role: p.role, Kind: "write", K: k, Variant: v, Half: (k+len(v))%2 == 1}, base})
 			}
 		}
 	}
